@@ -44,20 +44,34 @@ func newReferenceResolver(root cue.Value, config referenceResolverConfig) *refer
 // FIXME: this is probably very brittle and not always correct :|
 func (resolver *referenceResolver) PackageForNode(source cueast.Node, defaultPackage string) (string, error) {
 	switch source.(type) { //nolint: gocritic
+	case *cueast.ParenExpr:
+		// `(Foo)`
+		return resolver.PackageForNode(source.(*cueast.ParenExpr).X, defaultPackage)
+	case *cueast.IndexExpr:
+		// `Foo["a"]`
+		return resolver.PackageForNode(source.(*cueast.IndexExpr).X, defaultPackage)
 	case *cueast.SelectorExpr:
 		selector := source.(*cueast.SelectorExpr)
 
-		x := selector.X.(*cueast.Ident)
+		x, isIdent := selector.X.(*cueast.Ident)
+		if !isIdent {
+			// `Foo.a.b`, `(Foo).a`, …
+			return resolver.PackageForNode(selector.X, defaultPackage)
+		}
 
 		return resolver.resolveImportAlias(x.Name), nil
 	case *cueast.Field:
 		field := source.(*cueast.Field)
 
-		if _, ok := field.Value.(*cueast.SelectorExpr); ok {
+		switch field.Value.(type) {
+		case *cueast.SelectorExpr, *cueast.ParenExpr, *cueast.IndexExpr:
 			return resolver.PackageForNode(field.Value, defaultPackage)
 		}
 
-		ident := field.Value.(*cueast.Ident)
+		ident, isIdent := field.Value.(*cueast.Ident)
+		if !isIdent {
+			return defaultPackage, nil
+		}
 
 		if ident.Scope == nil {
 			return defaultPackage, nil
